@@ -288,7 +288,7 @@ META = {
              ' blocks per file and bit depth (all three quantiser objects) from the input, that the recorded length is clamped'
              ' to the input before use, that no persistent array is modified in place through a local alias (the synthetic '
              'gain is channelized_stds [* digitiser deviation] recomputed per sub-block), that the temporary zero target mean '
-             'is restored, and that real/imag statistics reach the matching quantiser. The requantised values are not decided.'
+             'is restored, and that real/imag statistics reach the matching quantiser. The requantised values are not decided. The decode comparison takes as a stated precondition that a block of a valid recording holds a whole number of samples per channel.'
              " Also decided: from_data returns a backend only if the antenna source's polarisation and antenna counts equal "
              "the input recording's.",
     'note': 'Alias analysis is name/attribute-path based; duck-typed quantize/channelize calls are opaque; only the quantiser caches '
